@@ -345,11 +345,13 @@ def _jsonable(x):
 def write_evidence(prop, tier, seed, results, crashes, problems, n_ob, n_proved, n_known, n_viol, wall, bounded_parts, seen_known):
     import z3
     vc = [r for r in results if r['kind'] == 'vc']
-    all_proof = bool(vc) and not bounded_parts and n_known == 0 and n_proved == n_ob
+    from pyvc.harness import REGISTRY as _REG
+    sized = [r['id'] for r in vc if getattr(_REG.get(r['id']), 'sizes_only', False)]
+    all_proof = bool(vc) and not bounded_parts and not sized and n_known == 0 and n_proved == n_ob
     functions = []
     for r in results:
         for s in r['sources']:
-            functions.append(dict(file=s[0], function=s[1], lines=[s[2], s[3]], harness=r['id'], tier=('P' if r['kind'] == 'vc' else 'B')))
+            functions.append(dict(file=s[0], function=s[1], lines=[s[2], s[3]], harness=r['id'], tier=('P' if r['kind'] == 'vc' and r['id'] not in sized else 'B')))
     per_clause = {}
     for r in results:
         for k, v in r['by_clause'].items():
@@ -387,6 +389,8 @@ def write_evidence(prop, tier, seed, results, crashes, problems, n_ob, n_proved,
                           obligations=sum(1 for o in r['obligations'] if not o['canary']), extra=r.get('extra', {}))
                      for r in results],
     )
+    if sized:
+        coverage['sizes_only_harnesses'] = dict(ids=sized, note='every loop of the target runs natively over concrete containers of the sizes stated in the harness: exhaustive for those sizes, labelled B, not counted as proved for all sizes')
     if _SENSITIVITY is not None:
         coverage['sensitivity_to_seeded_changes'] = _SENSITIVITY
     if bounded_parts:
